@@ -38,6 +38,7 @@ def jobs(tier):
     for op in ("compress", "expand"):
         items.append((f"file_{op}", [[0, 0]], False, Q, dict(params=dict(rows=2, header=True, column=1), budget=600, shard=6)))
         items.append((f"file_{op}", [[0, 0]], False, Q, dict(params=dict(rows=1, header=False, column=0, sep="|"), budget=600)))
+        items.append((f"file_{op}", [[0, 0]], False, Q, dict(params=dict(rows=1, header=True, column=-1), budget=600)))     # 'last column'
         items.append((f"file_{op}", [[1, 1]], False, T, dict(params=dict(rows=3, header=True, column=2, ncols=3), budget=3000, shard=9)))
         items.append((f"file_{op}", [[0, 0], [0, 0]], False, T, dict(params=dict(rows=2, header=False, column=0), budget=3000, shard=9)))
     exp = {}
@@ -168,7 +169,7 @@ def build(job):
         eng.expect(all(w[0] == "value" for w in want), f"file_{op} did not raise although a scalar call does")
         after = read()
         exp = ([head] if header else []) + [
-            [("" if (w[1] is None) else w[1]) if j == column else c for j, c in enumerate(r)] for r, w in zip(rows, want) if w[0] == "value"]
+            [("" if (w[1] is None) else w[1]) if j == column % ncols else c for j, c in enumerate(r)] for r, w in zip(rows, want) if w[0] == "value"]
         ok = len(after) == len(exp) and all(len(x) == len(y) and all(_cell_eq(p, q) for p, q in zip(x, y)) for x, y in zip(after, exp))
         eng.expect(ok, f"file_{op}: the file is not the element-wise scalar result with all other cells, the header and the row order preserved")
         return "ok"
